@@ -5,7 +5,10 @@ current /repo tree on every run:
   3. _StateInstances is the bijection the contracts use (own_state / STATE_CLASSES of contracts/c02.py);
   4. every state class resolves next / enter / exit to a method that is under contract (so that the base contracts used
      for `self.instance.<m>()` in set_state are refined by verified overrides);
-  5. set_state is only called by FiniteStateMachine.next / on_restart / on_shutdown.
+  5. set_state is only called by FiniteStateMachine.next / on_restart / on_shutdown;
+  6. the report fields of the state objects (lost_instances / lost_processes) are only assigned by
+     _SupvisorsBaseState.__init__ / _check_instances (no setattr with a computed name is accepted by 1.): justifies that
+     the frames of the call-outs (contracts/c02.py VIEW_PROT) protect them.
 """
 import ast
 from .props import obligation
@@ -185,4 +188,29 @@ def run(world, tier, out):
     ok = sorted(set(callers)) == [('statemachine', 'FiniteStateMachine', 'next'), ('statemachine', 'FiniteStateMachine', 'on_restart'),
                                   ('statemachine', 'FiniteStateMachine', 'on_shutdown')]
     obls.append(obligation('struct:callers-of-set_state', ok, f'callers: {sorted(set(callers))}'))
+    # ---------------------------------------------------------------- 6. writers of the lost_instances / lost_processes report
+    bad, sites = [], []
+    for mname, mod in ct.modules.items():
+        if getattr(mod, 'external', False) or mname.startswith('contracts'):
+            continue
+        enc = _enclosing(mod)
+        for node in ast.walk(mod.tree):
+            tgts = []
+            if isinstance(node, ast.Assign):
+                tgts = node.targets
+            elif isinstance(node, (ast.AugAssign, ast.AnnAssign)):
+                tgts = [node.target]
+            elif isinstance(node, ast.Delete):
+                tgts = node.targets
+            for t in tgts:
+                for tt in (t.elts if isinstance(t, (ast.Tuple, ast.List)) else [t]):
+                    if isinstance(tt, ast.Attribute) and tt.attr in ('lost_instances', 'lost_processes'):
+                        cls, fn = enc.get(id(node), (None, None))
+                        where = f'{mname}:{cls}.{fn}:{node.lineno} `{ast.unparse(tt)} = ...`'
+                        sites.append(where)
+                        if not ((mname, cls) == ('statemachine', '_SupvisorsBaseState') and fn in ('__init__', '_check_instances')
+                                and ast.unparse(tt.value) == 'self'):
+                            bad.append(where)
+    obls.append(obligation('struct:writers-of-lost-report', not bad and len(sites) >= 2,
+                           f'{len(sites)} assignments to lost_instances / lost_processes; not whitelisted: {bad}'))
     out['structural'].append({'documented_graph': sorted(g), 'table': table})
